@@ -528,5 +528,5 @@ def build(chk: Check) -> None:
     chk.sub("tiles_gen", o_tiles, strategy=s_regular_big(), n={"quick": 150, "thorough": 8000})
     chk.sub("roi_tiles", o_roi_tiles, strategy=st.one_of(s_variable(), s_regular_big()), n={"quick": 300, "thorough": 20000})
     chk.sub("geobox_tiles", o_gbt, strategy=s_gbt(), n={"quick": 600, "thorough": 50000})
-    chk.sub("assembler", o_asm, strategy=s_asm(), n={"quick": 3000, "thorough": 200000})
+    chk.sub("assembler", o_asm, cov={"quick": 1500, "thorough": 150000}, strategy=s_asm(), n={"quick": 3000, "thorough": 200000})
     chk.sub("zero_size", o_zero, enum=lambda tier: [{"base": b, "tile": t} for b in ([0, 0], [0, 5], [5, 0]) for t in ([1, 1], [4, 4])], exhaustive_tiers=("quick", "thorough"))
